@@ -74,6 +74,7 @@ class Report:
         self.assumptions: list[str] = []
         self.explanation = ""
         self.extra: dict = {}
+        self.errors: list[str] = []
 
     def rule(self, rule: str, title: str, floor: int = 0) -> RuleResult:
         r = RuleResult(rule=rule, title=title, floor=floor)
@@ -92,7 +93,7 @@ class Report:
         outdir.mkdir(parents=True, exist_ok=True)
         violations = []
         known_hits = []
-        errors = []
+        errors = list(self.errors)
         for r in self.rules:
             status = "ok"
             if r.instances < r.floor:
